@@ -31,6 +31,7 @@ MODULES = [
     ("Schema", "gen_schema"),
     ("DeclPin", "gen_declpin"),
     ("TopLoop", "gen_toploop"),
+    ("Dispatch", "gen_dispatch"),
     ("PinsC01", "gen_pins_c01"),
     ("PinsC02", "gen_pins_c02"),
     ("PinsC03", "gen_pins_c03"),
